@@ -504,9 +504,12 @@ def main() -> int:
                         skipped += 1
                     specs += [(x, 0) for x in ss]
             collect(run, sc, specs, "canonical histories", 900, results)
-            hit = 0
+            hit = targeted = 0
             for sp_, _hs in specs:
                 r = results.get(sp_["hid"], {})
+                if all(w == "not-inside" for w in sp_["intended"].values()):
+                    continue
+                targeted += 1
                 if "events" not in r or sp_["target"] not in r["owners"]:
                     continue
                 oi = r["owners"].index(sp_["target"])
@@ -519,6 +522,7 @@ def main() -> int:
                        for p in inside):
                     hit += 1
             run.coverage["canonical_histories"] = {"realised": len(specs), "class_not_realisable_for_module": skipped,
+                                                   "histories_targeting_a_boundary_inside_a_block": targeted,
                                                    "boundary_fell_where_intended": hit}
         for r in list(results.values())[:3]:
             run.sample({"history": r["hid"], "steps": r.get("spec", {}).get("steps", [])[:6],
